@@ -3,6 +3,7 @@ Regenerated-code equality theorems (see Model/GenCodeEq.lean for the overview): 
 Editor.InsertTwoColumnsOpts, Editor.InsertTwoColumns.
 -/
 import RosedVerif.Model.GenEq.Core
+import RosedVerif.Model.GenEq.ColumnsCore
 import RosedVerif.Model.GenEq.Options
 import RosedVerif.Model.GenEq.Block
 import RosedVerif.Model.GenEq.Wrap
@@ -52,22 +53,6 @@ theorem f64MulTrunc_nonneg (n : Int) (p : Pct) (hn : 0 ≤ n) (hp : p.neg = fals
   · have : decide (n < 0) = false := by simp; omega
     simp [this, hp, e]
   · simp [hp, mulRoundTrunc_zero]
-
-theorem ite_congr3 {γ : Type} {c c' : Prop} [Decidable c] [Decidable c'] {a a' b b' : γ}
-    (hc : c ↔ c') (ha : a = a') (hb : b = b') : (if c then a else b) = (if c' then a' else b') := by
-  subst ha hb
-  by_cases h : c
-  · rw [if_pos h, if_pos (hc.mp h)]
-  · rw [if_neg h, if_neg (fun h' => h (hc.mpr h'))]
-
-theorem bind_congr2 {β γ : Type} {m m' : R β} {k k' : β → R γ} (hm : m = m') (hk : ∀ x, k x = k' x) :
-    m >>= k = m' >>= k' := by
-  subst hm
-  exact bind_congr (m := R) hk
-
-/-- loop-free arithmetic side goal: split every `if`, prune the contradictory cases, close -/
-macro "num_close" : tactic => `(tactic|
-  ((repeat' (split <;> try omega)) <;> (first | rfl | omega | (simp_all; done) | grind)))
 
 /-- needs `cx.WF` for `Editor.Insert` (as `editorInsert_regenerated`) -/
 theorem editorInsertTwoColumnsOpts_regenerated (h : Gen.Code.editorInsertTwoColumnsOpts_extracted = true)
